@@ -154,6 +154,65 @@ func init() {
 		l.p("worker's own `recs`, which `run` clears and reuses (fix 0585c11) -/")
 		l.p("def eventGetsOwnRecordSlice : Bool := %s", leanBool(ownSlice))
 
+		// --- fix 7a8317a: readLine keeps a partial line in r.pend and reports io.EOF; it does not sleep ----------------
+		keepsPartial := false
+		if lrf := parseFile("pkg/scanner/parser/line_reader.go"); lrf != nil {
+			if rl := funcDecl(lrf, "lineReader", "readLine"); rl == nil {
+				problem("parser.lineReader.readLine not found")
+			} else {
+				sleeps, eofKeeps, lineReturn := false, false, false
+				mentions := func(n ast.Node, name string) bool {
+					found := false
+					ast.Inspect(n, func(m ast.Node) bool {
+						if id, ok := m.(*ast.Ident); ok && id.Name == name {
+							found = true
+						}
+						return true
+					})
+					return found
+				}
+				ast.Inspect(rl.Body, func(n ast.Node) bool {
+					if c, ok := n.(*ast.CallExpr); ok {
+						if se, ok := c.Fun.(*ast.SelectorExpr); ok && se.Sel.Name == "Sleep" {
+							sleeps = true
+						}
+					}
+					ifs, ok := n.(*ast.IfStmt)
+					if !ok || len(ifs.Body.List) == 0 {
+						return true
+					}
+					last, isRet := ifs.Body.List[len(ifs.Body.List)-1].(*ast.ReturnStmt)
+					if !isRet || len(last.Results) != 2 {
+						return true
+					}
+					if mentions(ifs.Cond, "EOF") && !mentions(ifs.Cond, "ErrBufferFull") {
+						// `r.pend = line; return nil, io.EOF`
+						assignsPend := false
+						for _, st := range ifs.Body.List {
+							if as, ok := st.(*ast.AssignStmt); ok && len(as.Lhs) == 1 {
+								if se, ok := as.Lhs[0].(*ast.SelectorExpr); ok && se.Sel.Name == "pend" {
+									assignsPend = true
+								}
+							}
+						}
+						if assignsPend && mentions(last.Results[0], "nil") && mentions(last.Results[1], "EOF") {
+							eofKeeps = true
+						}
+					}
+					if mentions(ifs.Cond, "ErrBufferFull") && mentions(ifs.Cond, "nil") && !mentions(ifs.Cond, "EOF") {
+						if mentions(last.Results[0], "line") && mentions(last.Results[1], "nil") {
+							lineReturn = true
+						}
+					}
+					return true
+				})
+				keepsPartial = eofKeeps && lineReturn && !sleeps
+			}
+		}
+		l.p("/-- `lineReader.readLine`: a complete line or a full buffer returns the line; on a source EOF the partial line is")
+		l.p("kept in `r.pend` and `io.EOF` is returned; the function does not sleep (fix 7a8317a) -/")
+		l.p("def readerKeepsPartialReportsEOF : Bool := %s", leanBool(keepsPartial))
+
 		// --- parsers: pos += int64(len(line)) --------------------------------------------------------------
 		posOK := true
 		for _, pf := range [][2]string{{"pkg/scanner/parser/pure_parser.go", "pureParser"}, {"pkg/scanner/parser/line_parser.go", "lineParser"},
